@@ -285,6 +285,11 @@ def _json_tree_diffs(a, b, ctype="<top>", out=None, path=""):
     if len(out) > 12:
         return out
     if isinstance(a, dict) and isinstance(b, dict):
+        t = a.get("cirq_type")
+        if isinstance(t, str) and (t == "complex" or t.split(".")[0] in ("sympy", "pandas", "datetime")):
+            if a != b:  # a number / expression / frame: a leaf of the enclosing Cirq object
+                out.append((ctype, None))
+            return out
         ct = a.get("cirq_type", ctype) if isinstance(a.get("cirq_type"), str) else ctype
         if a.get("cirq_type") != b.get("cirq_type"):
             out.append((ct, "cirq_type"))
@@ -323,21 +328,24 @@ def _classify(sdiffs, jdiffs, default, eq_held, via="json"):
 
     A known key (D5/D8/D9) is used only when *every* structural and JSON-level difference belongs to that one known
     mechanism.  Otherwise, when all differences concern one field of one class, the key names that field
-    ("C11:<Class>-<field>-not-serialized" for the JSON path, "...-lost-by-repr" for the repr path); anything else
-    gets `default`."""
+    ("C11:<Class>-<field>-not-serialized" for the JSON path, "...-lost-by-repr" for the repr path); when they concern one
+    class as a whole, the key names the class; anything else gets `default`."""
     keys = set()
     for d in sdiffs:
         k = KNOWN_FIELDS.get((d.owner, d.field))
         if k is None:
-            if d.field in ("<root>", "<value>") or d.path.endswith("<type>"):
+            if d.field == "<root>" or d.path.endswith("<type>"):
                 return default
-            k = "C11:%s-%s-%s" % (d.owner, d.field.lstrip("_"), "not-serialized" if via == "json" else "lost-by-repr")
+            if d.field == "<value>":
+                k = ("C11:roundtrip-not-equal:" if via == "json" else "C11:repr-eval-not-equal:") + d.owner
+            else:
+                k = "C11:%s-%s-%s" % (d.owner, d.field.lstrip("_"), "not-serialized" if via == "json" else "lost-by-repr")
         keys.add(k)
     for ct, f in jdiffs:
         k = KNOWN_JSON_FIELDS.get((ct, f))
         if k is None:
-            # the JSON-level view of a field that the structural view already names
-            if any(d.owner == ct.split(".")[-1] and d.field.lstrip("_") == str(f).lstrip("_") for d in sdiffs):
+            # the JSON-level view of a difference that the structural view already names
+            if any(d.owner == ct.split(".")[-1] for d in sdiffs):
                 continue
             k = "C11:json-field-changed:%s.%s" % (ct, f)
         keys.add(k)
@@ -400,7 +408,7 @@ def _children(o):
             for k, e in v.items():
                 flat(k, depth + 1)
                 flat(e, depth + 1)
-        elif (type(v).__module__ or "").startswith("cirq"):
+        elif (type(v).__module__ or "").startswith("cirq") and not isinstance(v, type):
             out.append(v)
     if isinstance(o, (list, tuple, dict, set, frozenset)):
         flat(o)
@@ -421,13 +429,32 @@ def _repr_roundtrips(o):
         return False
 
 
-def _repr_culprit(o, depth=0):
-    """The innermost stored object whose own repr does not evaluate back to it."""
+def _repr_evaluates(o):
+    if type(o).__repr__ is object.__repr__:
+        return False  # (the caller counts a class without a repr as "no contract", not as a violation)
+    try:
+        eval(repr(o), dict(_lenient_ns()), {})
+        return True
+    except Exception:  # noqa
+        return False
+
+
+def _repr_culprit(o, depth=0, raises=False):
+    """The innermost stored object whose own repr does not evaluate (raises=True) / does not evaluate back to it."""
+    ok = _repr_evaluates if raises else _repr_roundtrips
     if depth < 8:
-        for c in _children(o)[:40]:
-            if not _repr_roundtrips(c):
-                return _repr_culprit(c, depth + 1)
+        for c in _children(o)[:60]:
+            if not ok(c):
+                return _repr_culprit(c, depth + 1, raises)
     return o
+
+
+def _blame_name(cul):
+    """Class named in a repr mechanism key: an operation that merely applies a gate is blamed on the gate."""
+    g = getattr(cul, "gate", None)
+    if type(cul).__name__ == "GateOperation" and g is not None:
+        return _cls(g)
+    return _cls(cul)
 
 
 def _diff_txt(diffs):
@@ -752,11 +779,11 @@ def check_value(ctx, v, origin, light=False, repr_checks=True):
             z = eval(rx, dict(_lenient_ns()), {})
             ctx.reject("repr-eval:needs-unqualified-names")  # e.g. `pasqal.ThreeDQubit(..)`, dataclass default reprs
         except Exception as e2:  # noqa
-            cul = _repr_culprit(x)
+            cul = _repr_culprit(x, raises=True)
             if type(cul).__repr__ is object.__repr__:
                 ctx.reject("repr-eval:class-defines-no-repr")
             else:
-                ctx.check(False, "repr-eval-eq", "C11:repr-not-evaluable:%s" % _cls(cul),
+                ctx.check(False, "repr-eval-eq", "C11:repr-not-evaluable:%s" % _blame_name(cul),
                           "eval(repr(x)) raised %s: %s; innermost object whose repr does not evaluate back: %s"
                           % (type(e2).__name__, e2, repr(cul)[:300]), **wit)
     if z is not None:
@@ -768,7 +795,7 @@ def check_value(ctx, v, origin, light=False, repr_checks=True):
         if not eqz:
             cul = _repr_culprit(x)
             known = _classify(zdiffs, [], None, eqz, "repr") if zdiffs else None
-            key = known if known in KNOWN_FIELDS.values() else "C11:repr-eval-not-equal:" + _cls(cul)
+            key = known if known in KNOWN_FIELDS.values() else "C11:repr-eval-not-equal:" + _blame_name(cul)
             ctx.check(False, "repr-eval-eq", key,
                       lambda: "eval(repr(x)) != x; differences: %s; innermost object whose repr does not evaluate back: %s"
                               % (_diff_txt(zdiffs), repr(cul)[:300]), **wit)
@@ -945,8 +972,8 @@ def sec_mutants(ctx, rng, case):
             ctx.reject("mutant:not-writable:" + type(e).__name__)
             continue
         shape = _try(lambda: cirq.qid_shape(m, None))
-        if isinstance(shape, tuple) and any(d < 1 for d in shape):
-            ctx.reject("mutant:degenerate-dimension")
+        if (isinstance(shape, tuple) and any(d < 1 for d in shape)) or "nan" in repr(m):
+            ctx.reject("mutant:degenerate-value")  # zero dimensions, a zero vector normalised to nan, ...
             continue
         if t_o == t_m:
             ctx.distinct(("mutant-same", f["name"]), nontrivial=False)
@@ -1207,6 +1234,10 @@ def sec_qidorder(ctx, rng, case):
 
 
 # ====================================================================== (5) copies and pickles, as a history
+def _fields(diffs):
+    return ",".join(sorted({e.owner if e.field in ("<value>", "<root>") else "%s.%s" % (e.owner, e.field) for e in diffs}))[:80]
+
+
 def _unpicklable_culprit(o, depth=0):
     if depth < 8:
         for c in _children(o)[:40]:
@@ -1230,9 +1261,9 @@ def _copy_history(ctx, x, gen):
             continue
         ok = _same(c, x)
         d = _sdiff(x, c) if ok else []
-        ctx.check(ok and type(c) is type(x), "copy-eq", "C11:%s-not-equal:%s" % (how, cname), "%s(x) != x" % how, **wit)
+        ctx.check(ok and type(c) is type(x), "copy-eq", "C11:%s-not-equal:%s" % (how, _cls(_pair_culprit(x, c)[0])), "%s(x) != x" % how, **wit)
         if ok:
-            ctx.check(not d, "copy-structure", "C11:%s-loses-field:%s" % (how, ",".join(sorted({"%s.%s" % (e.owner, e.field) for e in d}))[:80]),
+            ctx.check(not d, "copy-structure", "C11:%s-loses-field:%s" % (how, _fields(d)),
                       lambda: "%s(x) compares equal but differs in stored fields: %s" % (how, _diff_txt(d)), **wit)
         if hx and ok:
             hc, hashc = _hashable(c)
@@ -1246,9 +1277,9 @@ def _copy_history(ctx, x, gen):
     p = pickle.loads(blob)
     ok = _same(p, x)
     d = _sdiff(x, p) if ok else []
-    ctx.check(ok and type(p) is type(x), "pickle-eq", "C11:pickle-not-equal:" + cname, "pickle round trip differs", **wit)
+    ctx.check(ok and type(p) is type(x), "pickle-eq", "C11:pickle-not-equal:" + _cls(_pair_culprit(x, p)[0]), "pickle round trip differs", **wit)
     if ok:
-        ctx.check(not d, "pickle-structure", "C11:pickle-loses-field:%s" % ",".join(sorted({"%s.%s" % (e.owner, e.field) for e in d}))[:80],
+        ctx.check(not d, "pickle-structure", "C11:pickle-loses-field:%s" % _fields(d),
                   lambda: "pickle round trip compares equal but differs in stored fields: %s" % _diff_txt(d), **wit)
     if hx and ok:
         hp, hashp = _hashable(p)
